@@ -297,7 +297,7 @@ fn check_tree(t: &Exp, envs: &[Env], l: &mut Local) {
 
 // ---------------- part B: constant spellings ----------------
 
-const TEMPLATES: [(&str, &str); 10] = [
+const TEMPLATES: [(&str, &str); 11] = [
     ("objective-coefficient", "min {C}\ns.t.\n    x >= -1\n    x <= 2\ndefine\n    x as Real\n"),
     ("row-coefficient", "max x\ns.t.\n    {C} <= 4\n    {C} >= -6\ndefine\n    x as Real\n"),
     ("bound-feeds-exact-abs", "min y\ns.t.\n    {C} <= 4\n    {C} >= -6\n    abs{ x } = y\ndefine\n    x as Real\n    y as Real(0, 100)\n"),
@@ -305,6 +305,7 @@ const TEMPLATES: [(&str, &str); 10] = [
     ("bound-feeds-min-in-row", "min x\ns.t.\n    {C} <= 4\n    {C} >= -6\n    min{ x, 1 } >= -2\ndefine\n    x as Real\n"),
     ("integer-bound", "max x\ns.t.\n    {C} <= 5\ndefine\n    x as IntegerRange(-10, 10)\n"),
     ("abs-of-scaled", "min abs{ {C} + 1 }\ns.t.\n    x >= -3\n    x <= 3\ndefine\n    x as Real\n"),
+    ("block-side-is-the-only-bound", "max max{ x, 1 }\ns.t.\n    abs{ {C} } <= 8\ndefine\n    x as Real\n"),
     // the coefficient multiplies a block: {C} is spelled over the operand named after the '@'
     ("block-objective-max@max{ x, 1 }", "min {C} + 3 * x\ns.t.\n    x >= -3\n    x <= 3\ndefine\n    x as Real\n"),
     ("block-objective-abs@abs{ x }", "max {C} + x\ns.t.\n    x >= -3\n    x <= 2\ndefine\n    x as Real\n"),
@@ -417,7 +418,7 @@ fn part_b_case(i: u64, l: &mut Local) {
 pub fn run(mut run: Run) -> ! {
     crate::core::silence_panics();
     let quick = run.quick();
-    run.rule = "part A: every Exp tree with <= 2 operator nodes over the full leaf alphabet {0,1,-0,2,-1,0.5,x,y,b} and every logic-only tree (not, and, or, xor, implies, iff over b, x, 0, 1, 2) with 3 operator nodes (thorough adds every tree with 3 operator nodes over a reduced alphabet) over every constructor (BinOp x9, UnOp x2, Abs, Not, Xor, Implies, Iff, n-ary And/Or/Min/Max with 0-3 operands) is rewritten with simplify, flatten and both compositions and evaluated at 72 assignments by an exact reference evaluator; part B: 10 model templates (the coefficient multiplies a variable, or a max / abs / min block in the objective or in rows) x 6 constants x 15 spellings of the coefficient (incl. named and API-supplied constants on either side) are compiled and compared; distinct = tree debug text / reference twin source; non-trivial = defined at some assignment / compiles".into();
+    run.rule = "part A: every Exp tree with <= 2 operator nodes over the full leaf alphabet {0,1,-0,2,-1,0.5,x,y,b} and every logic-only tree (not, and, or, xor, implies, iff over b, x, 0, 1, 2) with 3 operator nodes (thorough adds every tree with 3 operator nodes over a reduced alphabet) over every constructor (BinOp x9, UnOp x2, Abs, Not, Xor, Implies, Iff, n-ary And/Or/Min/Max with 0-3 operands) is rewritten with simplify, flatten and both compositions and evaluated at 72 assignments by an exact reference evaluator; part B: 11 model templates (the coefficient multiplies a variable, or a max / abs / min block in the objective or in rows) x 6 constants x 15 spellings of the coefficient (incl. named and API-supplied constants on either side) are compiled and compared; distinct = tree debug text / reference twin source; non-trivial = defined at some assignment / compiles".into();
     run.assume("reference semantics: strict exact evaluation, truthy iff non-zero, division by zero undefined; a division is 'diagnosable' when its denominator contains a variable or is a constant zero");
     run.assume("twin models compared row for row, else by exact equivalence (same optimum/status for the objective and for +-e_i on every declared variable; auxiliaries may differ in number and naming)");
     let envs = Arc::new(assignments());
